@@ -473,7 +473,7 @@ def processMulti (st : St) (vid : Pid) (kind : String) (now : Int) (detail effsS
   let agrees := fun (s0 : MState) (r : MState × List Eff) =>
     let t := toks s0 r.1 r.2
     t.length == implToks.length && (t.zip implToks).all (fun (a, b) => effEq seenJ a b)
-  let mop? : Option (List MOp) :=
+  let mop? : Option (List MPOp) :=
     match kind with
     | "A" =>
       if ms.active.isNone then
@@ -481,17 +481,17 @@ def processMulti (st : St) (vid : Pid) (kind : String) (now : Int) (detail effsS
         let ss := sendersOf (queueOf ms.queues ms.cur)
         let orders := if ss.length ≤ 1 then [[]] else if ss.length ≤ 6 then perms ss
           else (List.range ss.length).map (fun i => ss.drop i ++ ss.take i) ++ [ss.reverse]
-        some (orders.map (fun o => MOp.alarm now st.tbl inp o))
-      else some [MOp.alarm now st.tbl [] []]
+        some (orders.map (fun o => MPOp.alarm now st.tbl inp o))
+      else some [MPOp.alarm now st.tbl [] []]
     | _ =>
       match parseMsg? detail with
-      | some (mg, inst) => some [MOp.recv now { inst := inst, msg := mg }]
+      | some (mg, inst) => some [MPOp.recv now { inst := inst, msg := mg }]
       | none => none
   match mop? with
   | none => (st, some "multi: cannot parse op")
   | some cands =>
     -- begin alarms: any drain order is admissible (Go map order); active instance: COMMIT-sway map order
-    let variants : List (MState × MOp) :=
+    let variants : List (MState × MPOp) :=
       cands.map (fun c => (ms, c)) ++
       (match ms.active with
        | some p => (mapOrderVariants p.inst ((parseMsg? detail).map (·.1))).flatMap (fun v => cands.map (fun c => ({ ms with active := some { p with inst := v } }, c)))
